@@ -41,7 +41,9 @@ def obs (s : S) : String :=
   s!"obs time={s.time} act{act} " ++ dumpHeap s.heap
 
 def timerStep (st : TS) : List String → TS × List String
-  | ["init", n] => ({ s := { ts := Array.replicate (nat! n) {} }, script := [] }, [obs { ts := Array.replicate (nat! n) {} }])
+  | ["lag", _] => (st, [])     -- lag of the coarse clock behind the precise one: invisible to correct code
+  | ["init", n] => ({ s := { ts := Array.replicate (nat! n) {} }, script := [] },
+      ["loopinit time=0", obs { ts := Array.replicate (nat! n) {} }])
   | ["time", t] => let s := updateTime st.s (nat! t); ({ st with s := s }, [obs s])
   | ["start", id, t, r] =>
     let (s, rc) := start st.s (nat! id) (nat! t) (nat! r)
